@@ -21,6 +21,11 @@ change them.
 -/
 import AutomataVerif.Proofs.Query
 import AutomataVerif.Proofs.Random
+import AutomataVerif.Proofs.Iter
+import Mathlib.Order.Bounds.Basic
+import Mathlib.Data.Set.Finite.Basic
+import Mathlib.Data.List.Basic
+import Mathlib.Data.List.Nodup
 import Mathlib.Data.Set.Card
 import Mathlib.Order.Interval.Finset.Nat
 import Mathlib.Tactic.FieldSimp
@@ -253,6 +258,373 @@ theorem C13_random_zero (d : AV.DFA σ α) (hv : d.validate = .ok ()) (hd : d.Is
         rw [ih t ht hw (by simp)]
         simp
 
+
+/-! ## emptiness, minimum and maximum word length, finiteness -/
+
+/-- The set of lengths of accepted words. -/
+def Lengths (d : AV.DFA σ α) : Set Nat := {n | ∃ w ∈ Lang d, w.length = n}
+
+theorem lang_empty_iff (d : AV.DFA σ α) : Lang d = ∅ ↔ ∀ w : List α, d.accepts w = false := by
+  constructor
+  · intro h w
+    cases hw : d.accepts w with
+    | false => rfl
+    | true => have : w ∈ Lang d := hw; rw [h] at this; cases this
+  · intro h
+    ext w
+    simp only [Lang, Set.mem_ofPred_eq, h w, Set.mem_empty_iff_false]
+    simp
+
+/-- `isempty()` is true exactly when no word is accepted. -/
+theorem C13_isempty (d : AV.DFA σ α) (hd : d.IsDict) : d.isEmpty = true ↔ Lang d = ∅ := by
+  rw [lang_empty_iff]; exact isEmpty_spec hd
+
+/-- `minimum_word_length()` returns the least length of an accepted word, and raises
+`EmptyLanguageException` exactly when the language is empty (no other outcome exists). -/
+theorem C13_min (d : AV.DFA σ α) (hd : d.IsDict) :
+    (∀ m, d.minimumWordLength = .ok m ↔ IsLeast (Lengths d) m) ∧
+    (d.minimumWordLength = .error (.lib .emptyLanguageException) ↔ Lang d = ∅) ∧
+    (∀ e, d.minimumWordLength = .error e → e = .lib .emptyLanguageException) := by
+  rcases minimumWordLength_spec hd with ⟨m0, h0, ⟨w0, hl0, hw0⟩, hmin⟩ | ⟨h0, hall⟩
+  · have hleast : IsLeast (Lengths d) m0 :=
+      ⟨⟨w0, hw0, hl0⟩, fun n ⟨w, hw, hl⟩ => hl ▸ hmin w hw⟩
+    refine ⟨fun m => ?_, ?_, ?_⟩
+    · rw [h0]
+      constructor
+      · intro h; cases h; exact hleast
+      · intro h; rw [hleast.unique h]
+    · rw [h0]
+      constructor
+      · intro h; cases h
+      · intro h; have : w0 ∈ Lang d := hw0; rw [h] at this; cases this
+    · intro e he; rw [h0] at he; cases he
+  · have hemp : Lang d = ∅ := (lang_empty_iff d).mpr hall
+    refine ⟨fun m => ?_, ?_, ?_⟩
+    · rw [h0]
+      constructor
+      · intro h; cases h
+      · rintro ⟨⟨w, hw, _⟩, _⟩; rw [hemp] at hw; cases hw
+    · rw [h0]; exact ⟨fun _ => hemp, fun _ => rfl⟩
+    · intro e he; rw [h0] at he; cases he; rfl
+
+/-- A valid DFA's language is finite iff the lengths of its words are bounded. -/
+theorem lang_finite_iff_bounded (d : AV.DFA σ α) (hv : d.validate = .ok ()) :
+    (Lang d).Finite ↔ ∃ m, ∀ w ∈ Lang d, w.length ≤ m := by
+  classical
+  constructor
+  · intro hf
+    exact ⟨hf.toFinset.sup List.length,
+      fun w hw => Finset.le_sup (f := List.length) (hf.mem_toFinset.mpr hw)⟩
+  · rintro ⟨m, hm⟩
+    apply Set.Finite.subset
+      (Finset.finite_toSet ((List.range (m + 1)).flatMap (d.wordsOfLength fun _ => 0)).toFinset)
+    intro w hw
+    simp only [List.coe_toFinset, Set.mem_ofPred_eq, List.mem_flatMap, List.mem_range]
+    exact ⟨w.length, Nat.lt_succ_of_le (hm w hw), (C13_words_mem d hv _ _ w).mpr ⟨rfl, hw⟩⟩
+
+/-- `maximum_word_length()` raises `EmptyLanguageException` exactly for the empty language,
+returns `None` exactly for infinite languages, and otherwise the greatest length of an accepted
+word. -/
+theorem C13_max (d : AV.DFA σ α) (hv : d.validate = .ok ()) (hd : d.IsDict) :
+    (d.maximumWordLength = .error (.lib .emptyLanguageException) ↔ Lang d = ∅) ∧
+    (d.maximumWordLength = .ok none ↔ (Lang d).Infinite) ∧
+    (∀ m, d.maximumWordLength = .ok (some m) ↔ IsGreatest (Lengths d) m) ∧
+    (∀ e, d.maximumWordLength = .error e → e = .lib .emptyLanguageException) := by
+  rcases maximumWordLength_spec hd with ⟨h0, hall⟩ | ⟨h0, ⟨w0, hw0⟩, hunb⟩ | ⟨m0, h0, ⟨w0, hl0, hw0⟩, hmax⟩
+  · have hemp : Lang d = ∅ := (lang_empty_iff d).mpr hall
+    refine ⟨by rw [h0]; exact ⟨fun _ => hemp, fun _ => rfl⟩, ?_, fun m => ?_, ?_⟩
+    · rw [h0, hemp]
+      constructor
+      · intro h; cases h
+      · intro h; exact absurd Set.finite_empty h
+    · rw [h0]
+      constructor
+      · intro h; cases h
+      · rintro ⟨⟨w, hw, _⟩, _⟩; rw [hemp] at hw; cases hw
+    · intro e he; rw [h0] at he; cases he; rfl
+  · have hinf : (Lang d).Infinite := by
+      intro hf
+      obtain ⟨m, hm⟩ := (lang_finite_iff_bounded d hv).mp hf
+      obtain ⟨w, hl, hw⟩ := hunb (m + 1)
+      have := hm w hw
+      omega
+    refine ⟨?_, by rw [h0]; exact ⟨fun _ => hinf, fun _ => rfl⟩, fun m => ?_, ?_⟩
+    · rw [h0]
+      constructor
+      · intro h; cases h
+      · intro h; have : w0 ∈ Lang d := hw0; rw [h] at this; cases this
+    · rw [h0]
+      constructor
+      · intro h; cases h
+      · rintro ⟨_, hub⟩
+        obtain ⟨w, hl, hw⟩ := hunb (m + 1)
+        have := hub ⟨w, hw, rfl⟩
+        omega
+    · intro e he; rw [h0] at he; cases he
+  · have hgr : IsGreatest (Lengths d) m0 :=
+      ⟨⟨w0, hw0, hl0⟩, fun n ⟨w, hw, hl⟩ => hl ▸ hmax w hw⟩
+    have hfin : (Lang d).Finite := (lang_finite_iff_bounded d hv).mpr ⟨m0, hmax⟩
+    refine ⟨?_, ?_, fun m => ?_, ?_⟩
+    · rw [h0]
+      constructor
+      · intro h; cases h
+      · intro h; have : w0 ∈ Lang d := hw0; rw [h] at this; cases this
+    · rw [h0]
+      constructor
+      · intro h; cases h
+      · intro h; exact absurd hfin h
+    · rw [h0]
+      constructor
+      · intro h; cases h; exact hgr
+      · intro h; rw [hgr.unique h]
+    · intro e he; rw [h0] at he; cases he
+
+/-- `isfinite()` never raises and answers whether the language is finite. -/
+theorem C13_isfinite (d : AV.DFA σ α) (hv : d.validate = .ok ()) (hd : d.IsDict) :
+    ∃ b, d.isFinite = .ok b ∧ (b = true ↔ (Lang d).Finite) := by
+  obtain ⟨h1, h2, h3, _⟩ := C13_max d hv hd
+  unfold DFA.isFinite DFA.isFiniteCore
+  rcases maximumWordLength_spec hd with ⟨h0, _⟩ | ⟨h0, _, _⟩ | ⟨m0, h0, _, _⟩
+  · rw [h0]
+    refine ⟨true, rfl, ?_⟩
+    simp only [true_iff]
+    rw [h1.mp h0]; exact Set.finite_empty
+  · rw [h0]
+    refine ⟨false, rfl, ?_⟩
+    simp only [Bool.false_eq_true, false_iff]
+    exact h2.mp h0
+  · rw [h0]
+    refine ⟨true, rfl, ?_⟩
+    simp only [true_iff]
+    have hgr := (h3 m0).mp h0
+    exact (lang_finite_iff_bounded d hv).mpr ⟨m0, fun w hw => hgr.2 ⟨w, hw, rfl⟩⟩
+
+/-! ## cardinality, len -/
+
+/-- An ordering key that is injective on the alphabet always exists: the position in the list. -/
+def idxKey (d : AV.DFA σ α) : α → Int := fun a => (d.syms.idxOf a : Int)
+
+omit [DecidableEq σ] in
+theorem idxKey_inj (d : AV.DFA σ α) : d.KeyInj (idxKey d) := by
+  intro a ha b _ h
+  have : d.syms.idxOf a = d.syms.idxOf b := by simpa [idxKey] using h
+  exact (List.idxOf_inj ha).mp this
+
+/-- The words of the lengths `i, …, i+k-1`, level after level: duplicate free. -/
+theorem levels_nodup (d : AV.DFA σ α) (hv : d.validate = .ok ()) (hd : d.IsDict) (key : α → Int)
+    (hk : d.KeyInj key) (i k : Nat) :
+    ((List.range' i k).flatMap (d.wordsOfLength key)).Nodup := by
+  rw [List.nodup_flatMap]
+  refine ⟨fun j _ => C13_words_nodup d hv hd key hk j, ?_⟩
+  have := List.pairwise_lt_range' (s := i) (n := k) 1
+  refine this.imp ?_
+  intro a b hab
+  simp only [Function.onFun, List.disjoint_left]
+  intro w hwa hwb
+  have h1 := ((C13_words_mem d hv key a w).mp hwa).1
+  have h2 := ((C13_words_mem d hv key b w).mp hwb).1
+  omega
+
+/-- `cardinality()` returns the number of words of a finite language and raises
+`InfiniteLanguageException` for an infinite one; `len(dfa)` is the same call. -/
+theorem C13_cardinality (d : AV.DFA σ α) (hv : d.validate = .ok ()) (hd : d.IsDict) :
+    ((Lang d).Finite → d.cardinality = .ok (Set.ncard (Lang d))) ∧
+    ((Lang d).Infinite → d.cardinality = .error (.lib .infiniteLanguageException)) ∧
+    d.len = d.cardinality := by
+  classical
+  obtain ⟨hmin1, hmin2, _⟩ := C13_min d hd
+  obtain ⟨hmax1, hmax2, hmax3, _⟩ := C13_max d hv hd
+  refine ⟨?_, ?_, rfl⟩
+  · intro hfin
+    unfold DFA.cardinality
+    rcases minimumWordLength_spec hd with ⟨i, h0, ⟨w0, hl0, hw0⟩, hmin⟩ | ⟨h0, hall⟩
+    · rw [h0]
+      simp only
+      rcases maximumWordLength_spec hd with ⟨h1, hall⟩ | ⟨h1, _, _⟩ | ⟨m, h1, _, hmax⟩
+      · rw [hall w0] at hw0; cases hw0
+      · exact absurd hfin (hmax2.mp h1)
+      · rw [h1]
+        simp only
+        congr 1
+        have hset : Lang d =
+            ↑((List.range' i (m + 1 - i)).flatMap (d.wordsOfLength (idxKey d))).toFinset := by
+          ext w
+          simp only [List.coe_toFinset, Set.mem_ofPred_eq, mem_iterLoop_levels]
+          constructor
+          · intro hw
+            have h1 := hmin w hw
+            have h2 := hmax w hw
+            exact ⟨w.length, h1, by omega, (C13_words_mem d hv _ _ w).mpr ⟨rfl, hw⟩⟩
+          · rintro ⟨j, _, _, hw⟩
+            exact ((C13_words_mem d hv _ _ w).mp hw).2
+        rw [hset, Set.ncard_coe_finset,
+          List.toFinset_card_of_nodup (levels_nodup d hv hd _ (idxKey_inj d) _ _),
+          List.length_flatMap]
+        apply congrArg
+        apply List.map_congr_left
+        intro j _
+        exact C13_count d hd (idxKey d) j
+    · rw [h0]
+      simp only
+      rw [(lang_empty_iff d).mpr hall]
+      simp
+  · intro hinf
+    unfold DFA.cardinality
+    rcases minimumWordLength_spec hd with ⟨i, h0, _, _⟩ | ⟨h0, hall⟩
+    · rw [h0]
+      simp only
+      rw [hmax2.mpr hinf]
+    · rw [(lang_empty_iff d).mpr hall] at hinf
+      exact absurd Set.finite_empty hinf
+
+/-! ## iteration -/
+
+/-- The order of iteration: by length, then Python's string order. -/
+def shortlex (key : α → Int) (u v : List α) : Prop :=
+  u.length < v.length ∨ (u.length = v.length ∧ lexLt key u v)
+
+/-- Iterating an empty language produces no word and ends at once (no exception). -/
+theorem C13_iter_empty (d : AV.DFA σ α) (hd : d.IsDict) (key : α → Int) (n : Nat)
+    (h : Lang d = ∅) : d.iterRun key n = .ok ([], true) := by
+  unfold DFA.iterRun
+  rw [(C13_isempty d hd).mpr h]
+
+/-- What the iterator has produced after at most `n` rounds of its loop: never an exception;
+the words of the lengths `i, i+1, …, i+k-1` (`i` = minimum word length), level after level,
+each level in `words_of_length` order; it is exhausted only when the next length exceeds the
+maximum word length. -/
+theorem iterRun_levels (d : AV.DFA σ α) (hv : d.validate = .ok ()) (hd : d.IsDict) (key : α → Int)
+    (n : Nat) (hne : Lang d ≠ ∅) :
+    ∃ i limit k, d.minimumWordLength = .ok i ∧ d.maximumWordLength = .ok limit ∧ k ≤ n ∧
+      d.iterRun key n =
+        .ok ((List.range' i k).flatMap (d.wordsOfLength key), !iterCond limit (i + k)) ∧
+      (∀ j, i ≤ j → j < i + k → iterCond limit j = true) ∧
+      (k < n → iterCond limit (i + k) = false) := by
+  obtain ⟨_, hmin2, hmin3⟩ := C13_min d hd
+  obtain ⟨hmax1, _, _, hmax4⟩ := C13_max d hv hd
+  have he : d.isEmpty = false := by
+    cases h : d.isEmpty with
+    | false => rfl
+    | true => exact absurd ((C13_isempty d hd).mp h) hne
+  cases hi : d.minimumWordLength with
+  | error e => rw [hmin3 e hi] at hi; exact absurd (hmin2.mp hi) hne
+  | ok i =>
+    cases hl : d.maximumWordLength with
+    | error e => rw [hmax4 e hl] at hl; exact absurd (hmax1.mp hl) hne
+    | ok limit =>
+      obtain ⟨k, hk, h1, h2, h3, h4⟩ := iterLoop_spec d key limit n i
+      refine ⟨i, limit, k, rfl, rfl, hk, ?_, ?_, h4⟩
+      · unfold DFA.iterRun
+        simp only [he, hi, hl]
+        rw [← h1, ← h3]
+      · intro j hij hjk
+        rcases h2 j hjk with h | h
+        · exact h
+        · omega
+
+/-- **Nothing else, in order, each once**: every word produced by iteration is accepted; the
+sequence is strictly increasing in (length, then string order). -/
+theorem C13_iter_sound_sorted (d : AV.DFA σ α) (hv : d.validate = .ok ()) (hd : d.IsDict)
+    (key : α → Int) (hk : d.KeyInj key) (n : Nat) :
+    ∃ ys fin, d.iterRun key n = .ok (ys, fin) ∧ (∀ w ∈ ys, w ∈ Lang d) ∧
+      ys.Pairwise (shortlex key) := by
+  by_cases hne : Lang d = ∅
+  · exact ⟨[], true, C13_iter_empty d hd key n hne, by simp, List.Pairwise.nil⟩
+  · obtain ⟨i, limit, k, _, _, _, hrun, _, _⟩ := iterRun_levels d hv hd key n hne
+    refine ⟨_, _, hrun, ?_, ?_⟩
+    · intro w hw
+      obtain ⟨j, _, _, hwj⟩ := mem_iterLoop_levels.mp hw
+      exact ((C13_words_mem d hv key j w).mp hwj).2
+    · rw [List.pairwise_flatMap]
+      constructor
+      · intro j _
+        refine (C13_words_sorted d hv hd key hk j).imp_of_mem ?_
+        intro u v hu hv' huv
+        right
+        exact ⟨by rw [((C13_words_mem d hv key j u).mp hu).1, ((C13_words_mem d hv key j v).mp hv').1], huv⟩
+      · have := List.pairwise_lt_range' (s := i) (n := k) 1
+        refine this.imp ?_
+        intro a b hab u hu v hv'
+        left
+        rw [((C13_words_mem d hv key a u).mp hu).1, ((C13_words_mem d hv key b v).mp hv').1]
+        exact hab
+
+/-- **Every accepted word eventually**: an accepted word `w` has been produced after at most
+`|w| + 1` rounds of the loop. -/
+theorem C13_iter_complete (d : AV.DFA σ α) (hv : d.validate = .ok ()) (hd : d.IsDict)
+    (key : α → Int) (w : List α) (hw : w ∈ Lang d) (n : Nat) (hn : w.length < n) :
+    ∃ ys fin, d.iterRun key n = .ok (ys, fin) ∧ w ∈ ys := by
+  have hne : Lang d ≠ ∅ := by intro h; rw [h] at hw; cases hw
+  obtain ⟨hmin1, _, _⟩ := C13_min d hd
+  obtain ⟨_, _, hmax3, _⟩ := C13_max d hv hd
+  obtain ⟨i, limit, k, hi, hl, hk, hrun, hcond, hstop⟩ := iterRun_levels d hv hd key n hne
+  refine ⟨_, _, hrun, mem_iterLoop_levels.mpr ⟨w.length, ?_, ?_, (C13_words_mem d hv key _ w).mpr ⟨rfl, hw⟩⟩⟩
+  · exact ((hmin1 i).mp hi).2 ⟨w, hw, rfl⟩
+  · -- the loop condition holds at |w|, so the loop cannot have stopped before it
+    have hcw : iterCond limit w.length = true := by
+      cases limit with
+      | none => rfl
+      | some m =>
+        have := ((hmax3 m).mp hl).2 ⟨w, hw, rfl⟩
+        simpa [iterCond] using this
+    rcases Nat.lt_or_ge k n with hlt | hge
+    · have hfalse := hstop hlt
+      rcases Nat.lt_or_ge w.length (i + k) with h | h
+      · exact h
+      · rw [iterCond_mono hcw h] at hfalse; cases hfalse
+    · omega
+
+/-- For a finite language the iterator is exhausted after finitely many rounds, having produced
+exactly the language; for an infinite language it is never exhausted. -/
+theorem C13_iter_exhaustion (d : AV.DFA σ α) (hv : d.validate = .ok ()) (hd : d.IsDict)
+    (key : α → Int) :
+    ((Lang d).Finite → ∃ n ys, d.iterRun key n = .ok (ys, true) ∧ ∀ w, w ∈ ys ↔ w ∈ Lang d) ∧
+    ((Lang d).Infinite → ∀ n ys fin, d.iterRun key n = .ok (ys, fin) → fin = false) := by
+  obtain ⟨_, hmax2, hmax3, _⟩ := C13_max d hv hd
+  constructor
+  · intro hfin
+    by_cases hne : Lang d = ∅
+    · exact ⟨0, [], C13_iter_empty d hd key 0 hne, by simp [hne]⟩
+    · obtain ⟨m, hm⟩ := (lang_finite_iff_bounded d hv).mp hfin
+      obtain ⟨i, limit, k, hi, hl, hk, hrun, hcond, hstop⟩ := iterRun_levels d hv hd key (m + 2) hne
+      have hlim : ∃ l, limit = some l := by
+        cases limit with
+        | none => exact absurd hfin (hmax2.mp hl)
+        | some l => exact ⟨l, rfl⟩
+      obtain ⟨l, rfl⟩ := hlim
+      have hgr := (hmax3 l).mp hl
+      have hlm : l ≤ m := by
+        obtain ⟨w, hw, hwl⟩ := hgr.1
+        rw [← hwl]; exact hm w hw
+      have hdone : iterCond (some l) (i + k) = false := by
+        rcases Nat.lt_or_ge k (m + 2) with hlt | hge
+        · exact hstop hlt
+        · simp only [iterCond, decide_eq_false_iff_not]; omega
+      refine ⟨m + 2, _, by rw [hrun, hdone]; rfl, ?_⟩
+      intro w
+      constructor
+      · intro hw
+        obtain ⟨j, _, _, hwj⟩ := mem_iterLoop_levels.mp hw
+        exact ((C13_words_mem d hv key j w).mp hwj).2
+      · intro hw
+        obtain ⟨ys, fin, hrun', hmem⟩ := C13_iter_complete d hv hd key w hw (m + 2) (by have := hm w hw; omega)
+        rw [hrun] at hrun'
+        cases hrun'
+        exact hmem
+  · intro hinf n ys fin hrun
+    have hne : Lang d ≠ ∅ := by intro h; rw [h] at hinf; exact hinf Set.finite_empty
+    obtain ⟨i, limit, k, hi, hl, hk, hrun', _, _⟩ := iterRun_levels d hv hd key n hne
+    rw [hrun'] at hrun
+    have : limit = none := by
+      cases limit with
+      | none => rfl
+      | some l =>
+        have hgr := (hmax3 l).mp hl
+        exact absurd ((lang_finite_iff_bounded d hv).mpr ⟨l, fun w hw => hgr.2 ⟨w, hw, rfl⟩⟩) hinf
+    subst this
+    cases hrun
+    rfl
+
 /-! ## non-vacuity -/
 
 /-- `0*1⁺` over symbols 0,1 (state 2 is a trap): a complete DFA with an infinite language. -/
@@ -277,6 +649,12 @@ example : exD.wordsOfLength id 3 = [[0, 0, 1], [0, 1, 1], [1, 1, 1]] ∧ exD.cou
 example : exF.wordsOfLength id 2 = [[0, 1], [1, 0], [1, 1]] ∧ exF.countWordsOfLength 2 = 3 ∧
     exF.countWordsOfLength 3 = 0 := by decide
 
+example : exD.minimumWordLength = .ok 1 ∧ exD.maximumWordLength = .ok none ∧ exD.isFinite = .ok false ∧
+    exD.cardinality = .error (.lib .infiniteLanguageException) := by decide
+example : exF.minimumWordLength = .ok 0 ∧ exF.maximumWordLength = .ok (some 2) ∧ exF.isFinite = .ok true ∧
+    exF.cardinality = .ok 6 := by decide
+example : exF.iterRun id 5 = .ok ([[], [0], [1], [0, 1], [1, 0], [1, 1]], true) := by decide
+example : exD.iterRun id 3 = .ok ([[1], [0, 1], [1, 1], [0, 0, 1], [0, 1, 1], [1, 1, 1]], false) := by decide
 example : exD.InRange 2 exD.init [1, 0] := by decide
 example : exD.randomWord 2 [1, 0] = .ok [1, 1] ∧ exD.randomWord 2 [0, 0] = .ok [0, 1] := by decide
 example : exF.randomWord 3 [] = .error (.py .valueError) := by decide
